@@ -25,6 +25,7 @@ func init() {
 			{"C03.R2", "q", "shared: repoint/hint position = copy target", c03r2},
 			{"C03.R4", "q", "shared: indexes discarded first", c03r4},
 			{"C18.R4", "q", "shared: deferred endGCWriting", c18r4},
+			{"C13.R9", "q", "shared: a colliding key in the hint buffer is reported to GC", c13r9},
 		},
 	})
 }
